@@ -154,6 +154,12 @@ REGION_SHAPES = [
      "C15:block-inside-autoescape-region"),
     ({"mode": "off", "templates": {"main.html": "{% autoescape ae_on %}x{% for i in [1] %}{% block b %}{{ EXPR }}{% endblock %}{% endfor %}{% endautoescape %}"}},
      "C15:block-inside-autoescape-region"),
+    ({"mode": "off", "templates": {"main.html": "{% autoescape true %}{% for i in [a, b] %}{% block b scoped %}{{ i }}{{ EXPR }}{% endblock %}{% endfor %}{% endautoescape %}"}},
+     "C15:block-inside-autoescape-region"),
+    ({"mode": "off", "templates": {"main.html": "{% autoescape ae_on %}{% with w = a %}{% block b scoped %}{{ w }}{{ EXPR }}{{ '<lIt>' }}{% endblock %}{% endwith %}{% endautoescape %}"}},
+     "C15:block-inside-autoescape-region"),
+    ({"mode": "off", "templates": {"main.html": "{% autoescape true %}{% for i in [a] %}{% block b scoped %}{% for j in [i, b] %}{% block c scoped %}{{ j }}{{ EXPR }}{% endblock %}{% endfor %}{% endblock %}{% endfor %}{% endautoescape %}"}},
+     "C15:block-inside-autoescape-region"),
     ({"mode": "off", "templates": {"main.html": "{% extends 'base.html' %}{% block b %}{{ EXPR }}{% endblock %}",
                                    "base.html": "{% autoescape true %}[{% block b %}{% endblock %}]{% endautoescape %}"}},
      "C15:overriding-block-rendered-in-parent-region"),
@@ -260,11 +266,13 @@ def run(ctx):
     # regenerated obligation: the OBSERVED table is safe (decided in Coq), opt-out rows excluded
     obs = [(k, t, mk, fl) for k, t, mk, fl, name in rows if name not in R.EXPLICIT_OPT_OUT]
     vtext = ("From Coq Require Import List Bool.\nImport ListNotations.\n"
-             "From JV Require Import Model.EscRows.\n"
+             "From JV Require Import Model.EscRows Proofs.EscRowsProofs.\n"
              "Definition observed_rows : list rcase :=\n" + R.coq_table(obs) + ".\n"
              "Theorem observed_rows_safe : row_safe observed_rows = true.\nProof. vm_compute. reflexivity. Qed.\n"
+             "(* every observed row with a Markup result, string rows and carrier rows alike, yields Clean text *)\n"
+             "Definition observed_rows_clean := JV.Proofs.EscRowsProofs.rows_table_clean observed_rows observed_rows_safe.\n"
              f"Theorem observed_rows_count : length observed_rows = {len(obs)}%nat.\nProof. reflexivity. Qed.\n")
-    ok, out = ctx.coq_obligation("Gen_filter_rows", vtext, n_obligations=2)
+    ok, out = ctx.coq_obligation("Gen_filter_rows", vtext, n_obligations=3)
     ctx.extra["filters_in_running_jinja2"] = len(FILTERS)
     ctx.extra["filter_row_cases"] = len(rows)
 
